@@ -801,7 +801,11 @@ class ClientSession:
                                     "body. Use bytes, a seekable file-like object, "
                                     "or set allow_redirects=False."
                                 )
-                            data = req._body
+                            # (the placeholder of a request without a body is
+                            # not a body: the next hop must not gain entity
+                            # headers the original did not have)
+                            if req._body is not req._EMPTY_BODY:
+                                data = req._body
 
                         r_url = resp.headers.get(hdrs.LOCATION) or resp.headers.get(
                             hdrs.URI
